@@ -94,7 +94,18 @@ type Lemma struct {
 	Mode  Mode
 }
 
+// HeapInv: a value-only invariant of every cell of a heap (slice elements, map values, a struct field):
+// assumed for every value read from that heap, proved for every value written to it.
+type HeapInv struct {
+	Pkg   string
+	Props []string
+	Heap  string // heap spec: "elem *Card", "map string *T", "Type.field"
+	Expr  Expr   // over `value`
+	Src   string
+}
+
 type SpecDB struct {
+	HeapInvs []*HeapInv
 	Funcs  map[string]*FuncSpec // by pkgpath + ":" + key
 	Pure   map[string]*PureFunc // by name (global namespace; package-qualified later if needed)
 	Guards []*Guard
@@ -226,6 +237,19 @@ func (db *SpecDB) parseFile(file, pkgPath, text string) {
 				gv.Init = e
 			}
 			db.Ghosts[name] = gv
+		case "invariant":
+			cur = nil
+			i := strings.Index(rest, ":")
+			if i < 0 {
+				db.errf(file, l.n, "invariant needs '<heap>: expr'")
+				continue
+			}
+			e, err := parseExpr(rest[i+1:])
+			if err != nil {
+				db.errf(file, l.n, "invariant: %v", err)
+				continue
+			}
+			db.HeapInvs = append(db.HeapInvs, &HeapInv{Pkg: pkgPath, Props: append([]string{}, props...), Heap: strings.TrimSpace(rest[:i]), Expr: e, Src: l.s})
 		case "lemma":
 			cur = nil
 			i := strings.Index(rest, ":")
